@@ -13,6 +13,14 @@ defect of Beam._modified belongs to C01).  Monitors, all on Beam.density / Singl
                 <= step + linear interpolation of the line density) + 1e-7.  The documented scheme attains the bound,
                 so the margin of this monitor sits just below 1/TOL_FACTOR by construction.  Comparisons whose tolerance
                 exceeds a tenth of the attenuation reached at that z are judged too but counted as flux_atten_loose.
+  flux_atten_gapped : same comparison for the "gapped" class: ion densities that are EXACTLY zero on parts of the axis
+                between non-zero regions (2-3 oblique slabs with vacuum gaps, a hollow spherical shell crossed twice,
+                a cosine clipped to zero; shared by all ions or carried by one species while the others stay smooth;
+                vacuum or plasma at z = 0).  The kinks on the axis are computed analytically, the Gauss-Legendre panels
+                never straddle one (graded towards them), derivatives for the tolerance are taken piecewise, and every
+                grid cell holding a kink gets the first-order allowance step*|jump|/2 + step^2 max|a'| (x KINK_FACTOR 4;
+                + step*|jump|/4 interpolation term near a kink) - no alignment of kinks with grid nodes is assumed.
+                The jump term is attained when a discontinuity sits next to a node: margin < 1/KINK_FACTOR.
   envelope    : normalised second moments of the cross-section = sigma_x(z)^2, sigma_y(z)^2 (documented envelope,
                 truncated-Gaussian factor when clamping is on).  Judged first: the quadrature nodes follow the documented
                 envelope, so when it fails the z-dependence of the flux is skipped for that case (not attributable).
@@ -36,6 +44,7 @@ RULE = ("random beam (energy 1e3..1e6 eV/amu, power, H/D/T/He, sigma 1 mm..0.3 m
         "length 0.1..5 m, step 1 mm..0.2 m incl. step > length, clamp on/off with clamp_sigma 1..6), random rigid placement "
         "of beam and plasma (identity / translated / rotated / nested parents), 0..4 ion species (Z 1..10) plus optional "
         "neutrals with null rates, uniform / linear / exponential / Gaussian-bump density, temperature and flow profiles, "
+        "piecewise densities exactly zero between plasma regions (slabs / hollow shell / clipped cosine), "
         "per-key power-law stopping rates scaled to an optical depth 0.03..10 (or all-null = no stopping); a case is "
         "non-trivial when a flux comparison ran with non-zero beam density and (stopping classes) optical depth >= 0.01 "
         "with a tolerance below a tenth of the attenuation; distinct = distinct parameter dictionaries")
@@ -49,14 +58,16 @@ TECHNIQUE = ("runtime monitoring: conservation + monotonicity monitor over a sam
              "(independent stopping integral, recording mock atomic data, recording profile callables)")
 ASSUMPTIONS = ["beam and plasma share one scene-graph root and are related by a rigid transform (rotation + translation)",
                "stopping rates and ion densities are non-negative; neutrals (Z=0, documented n_eq undefined) have null rates",
-               "profiles are smooth on the scale of the attenuator step (tolerance is computed from their derivatives)",
+               "profiles are piecewise smooth on the scale of the attenuator step with analytically known kinks on the beam axis "
+               "(tolerance is computed from their piecewise derivatives and jumps)",
                "every scene is built in its final placement before the first density evaluation (history effects: C01)"]
 ASAN_MODULES = ["cherab.core.model.attenuator.singleray", "cherab.core.beam.node"]
 ASAN = dict(cases=300, workers=8, timecap=240)
 QUICK = dict(cases=220, workers=2, timecap=40)
 THOROUGH = dict(cases=22000, workers=16, timecap=600)
-TOL_FACTOR = 10.0   # safety factor on the rigorous discretisation bound (the bound itself is attained by the documented scheme)
-REQUIRED = {"flux_source": 70, "flux_nostop": 150, "flux_atten": 500, "envelope": 1500, "monotone": 5000, "zero_z": 2500,
+TOL_FACTOR = 10.0   # safety factor on the rigorous smooth-profile discretisation bound (attained by the documented scheme)
+KINK_FACTOR = 4.0   # safety factor on the first-order terms of cells that contain a kink of a piecewise profile
+REQUIRED = {"flux_source": 70, "flux_nostop": 100, "flux_atten": 500, "flux_atten_gapped": 100, "axis_kinks": 50, "envelope": 1500, "monotone": 5000, "zero_z": 2500,
             "zero_clamp": 5000, "dir_unit": 2000, "dir_stream": 3000, "rate_evaluations": 10000}
 
 # own constants (CODATA 2018; cherab mixes 2018 and 2022 => never compare physics below 1e-7)
@@ -135,7 +146,75 @@ def vec_scalar(p, pts):
     if k == "gau":
         d2 = ((pts - np.asarray(p["c"])) ** 2).sum(axis=1)
         return p["b"] + p["a"] * np.exp(-d2 / (2.0 * p["w"] ** 2))
+    if k == "slabs":          # v * f_j for a_j <= s <= b_j, s = (r - r0).e ; exactly 0 elsewhere
+        sc = (pts - np.asarray(p["r0"])) @ np.asarray(p["e"])
+        out = np.zeros(len(pts))
+        for a_, b_, f_ in p["iv"]:
+            out = np.where((sc >= a_) & (sc <= b_), p["v"] * f_, out)
+        return out
+    if k == "shell":          # hollow sphere: v (1 + g t), t = (rho - ri)/(ro - ri) in [0, 1]; exactly 0 elsewhere
+        rho = np.sqrt(((pts - np.asarray(p["c"])) ** 2).sum(axis=1))
+        t = (rho - p["ri"]) / (p["ro"] - p["ri"])
+        return np.where((rho >= p["ri"]) & (rho <= p["ro"]), p["v"] * (1.0 + p["g"] * t), 0.0)
+    if k == "clip":           # v max(0, cos(kk s + ph) - off): continuous, clipped to exactly 0
+        sc = (pts - np.asarray(p["r0"])) @ np.asarray(p["e"])
+        return p["v"] * np.maximum(0.0, np.cos(p["kk"] * sc + p["ph"]) - p["off"])
     raise ValueError(k)
+
+
+GAP_KINDS = ("slabs", "shell", "clip")
+
+
+def profile_kinks(p, p0, d, L):
+    """z in (0, L) where the profile p, restricted to the beam axis r = p0 + z d, is not smooth."""
+    k = p["k"]
+    out = []
+    if k == "slabs":
+        e = np.asarray(p["e"])
+        s0 = float((p0 - np.asarray(p["r0"])) @ e)
+        c = float(d @ e)
+        if abs(c) > 1e-12:
+            for a_, b_, f_ in p["iv"]:
+                out += [(a_ - s0) / c, (b_ - s0) / c]
+    elif k == "shell":
+        q = p0 - np.asarray(p["c"])
+        bq = float(d @ q)
+        for R in (p["ri"], p["ro"]):
+            disc = bq * bq - (float(q @ q) - R * R)
+            if disc >= 0:
+                out += [-bq - math.sqrt(disc), -bq + math.sqrt(disc)]
+    elif k == "clip":
+        e = np.asarray(p["e"])
+        s0 = float((p0 - np.asarray(p["r0"])) @ e)
+        c = float(d @ e)
+        if abs(p["off"]) < 1 and abs(c * p["kk"]) > 1e-12:
+            al = math.acos(p["off"])
+            w0 = p["kk"] * s0 + p["ph"]
+            w1 = w0 + p["kk"] * c * L
+            lo, hi = min(w0, w1), max(w0, w1)
+            for sign in (1.0, -1.0):
+                m0_ = int(math.floor((lo - sign * al) / (2 * math.pi))) - 1
+                m1_ = int(math.ceil((hi - sign * al) / (2 * math.pi))) + 1
+                for m in range(m0_, m1_ + 1):
+                    w = sign * al + 2 * math.pi * m
+                    out.append((w - w0) / (p["kk"] * c))
+    return [z for z in out if 0.0 < z < L]
+
+
+def axis_kinks(case, M):
+    L = case["beam"]["length"]
+    p0 = M[:3, 3]
+    d = M[:3, 2] / np.linalg.norm(M[:3, 2])
+    zs = []
+    for s_ in case["species"]:
+        if s_["n"]["k"] in GAP_KINDS:
+            zs += profile_kinks(s_["n"], p0, d, L)
+    zs = sorted(zs)
+    out = []
+    for z in zs:
+        if not out or z - out[-1] > 1e-12 * L:
+            out.append(float(z))
+    return out
 
 
 def vec_vector(p, pts):
@@ -174,6 +253,42 @@ def scalar_fn(p, counter):
         def f(x, y, z):
             counter[0] += 1
             return b + a * math.exp(-((x - cx) ** 2 + (y - cy) ** 2 + (z - cz) ** 2) * inv)
+        return f
+    if k == "slabs":
+        v0 = float(p["v"])
+        ex, ey, ez = [float(c) for c in p["e"]]
+        x0, y0, z0 = [float(c) for c in p["r0"]]
+        iv = [(float(a_), float(b_), v0 * float(f_)) for a_, b_, f_ in p["iv"]]
+
+        def f(x, y, z):
+            counter[0] += 1
+            sc = (x - x0) * ex + (y - y0) * ey + (z - z0) * ez
+            val = 0.0
+            for a_, b_, vf in iv:
+                if a_ <= sc <= b_:
+                    val = vf
+            return val
+        return f
+    if k == "shell":
+        v0, g, ri, ro = float(p["v"]), float(p["g"]), float(p["ri"]), float(p["ro"])
+        cx, cy, cz = [float(c) for c in p["c"]]
+
+        def f(x, y, z):
+            counter[0] += 1
+            rho = math.sqrt((x - cx) ** 2 + (y - cy) ** 2 + (z - cz) ** 2)
+            if ri <= rho <= ro:
+                return v0 * (1.0 + g * (rho - ri) / (ro - ri))
+            return 0.0
+        return f
+    if k == "clip":
+        v0, kk, ph, off = float(p["v"]), float(p["kk"]), float(p["ph"]), float(p["off"])
+        ex, ey, ez = [float(c) for c in p["e"]]
+        x0, y0, z0 = [float(c) for c in p["r0"]]
+
+        def f(x, y, z):
+            counter[0] += 1
+            sc = (x - x0) * ex + (y - y0) * ey + (z - z0) * ez
+            return v0 * max(0.0, math.cos(kk * sc + ph) - off)
         return f
     raise ValueError(k)
 
@@ -246,46 +361,89 @@ def _gl(n):
     return _GL[n]
 
 
-def optical_depth(case, zs, panel, order, M=None, scale=None):
-    """tau(z_k) = int_0^{z_k} S/v dz for sorted zs, Gauss-Legendre panels no longer than `panel`."""
+def optical_depth(case, zs, panel, order, M=None, scale=None, kinks=()):
+    """tau(z_k) = int_0^{z_k} S/v dz for sorted zs, Gauss-Legendre panels no longer than `panel`; panels never straddle
+    a kink of a piecewise profile (all nodes are interior, so a discontinuity is never sampled)."""
     v = beam_speed(case["beam"]["energy"])
     x, w = _gl(order)
-    out = np.zeros(len(zs))
+    res = {}
     prev = 0.0
     acc = 0.0
-    for k, z in enumerate(zs):
+    zmax = max(zs) if len(zs) else 0.0
+    kset = set(float(q) for q in kinks)
+    marks = sorted(set([float(z) for z in zs] + [q for q in kset if q < zmax]))
+    for z in marks:
         if z > prev:
             npan = max(1, int(math.ceil((z - prev) / panel)))
             edges = np.linspace(prev, z, npan + 1)
+            # geometric grading towards an end that is a kink (a clipped profile leaves a thin layer there in which
+            # the power-law rates vary quickly)
+            if prev in kset:
+                edges = np.concatenate([[prev], prev + (edges[1] - prev) * 0.5 ** np.arange(40, 0, -1), edges[1:]])
+            if z in kset:
+                edges = np.concatenate([edges[:-1], z - (z - edges[-2]) * 0.5 ** np.arange(1, 41), [z]])
+            npan = len(edges) - 1
             half = 0.5 * (edges[1:] - edges[:-1])
             mid = 0.5 * (edges[1:] + edges[:-1])
             zz = (mid[:, None] + half[:, None] * x[None, :]).ravel()
             S = stopping(case, zz, M=M, scale=scale).reshape(npan, order)
             acc += float(((S * w[None, :]).sum(axis=1) * half).sum()) / v
             prev = z
-        out[k] = acc
-    return out
+        res[z] = acc
+    return np.array([res[float(z)] for z in zs])
 
 
-def discretisation_bound(case, zs, M):
-    """Bound on the relative error of lambda(z) made by ANY trapezoid-on-a-grid (spacing <= h) + linear interpolation
-    scheme:  (exp(z h^2/12 max|a''|) - 1 + h^2/8 max|a^2 - a'|) * exp(h max a),  a = S/v, maxima over [0, z]."""
+def flux_tolerance(case, zs, M, kinks=()):
+    """Relative tolerance on lambda(z)/lambda(0) for ANY scheme "trapezoid of a = S/v on a grid of spacing <= h, then
+    linear interpolation of the line density", h = min(step, length).  a is piecewise smooth with kinks (jumps J_k of a,
+    or of a') at the known positions `kinks`.  Rigorous error budget (maxima over [0, zz], zz = right node of the cell
+    holding z; derivatives taken piecewise, never across a kink):
+      cells without kink : trapezoid error <= h^3/12 max|a''| each            -> E_s = zz h^2/12 max|a''|
+      a cell with kink k : a = Lipschitz part + J_k * step function            -> E_k = h J_k/2 + h^2 max|a'|
+      interpolation      : h^2/8 max|a^2 - a'|  (+ h J_k/4 for every kink within h of z: derivative jump of lambda)
+    tol = [expm1(TOL_FACTOR E_s + KINK_FACTOR sum_k E_k) + TOL_FACTOR h^2/8 max|a^2-a'| + KINK_FACTOR sum h J_k/4]
+          * exp(h max a) + 1e-7.
+    The first-order kink terms are attained only when a discontinuity sits next to a grid node, hence the smaller
+    safety factor on them."""
     b = case["beam"]
     L = b["length"]
     h = min(case["attenuator"]["step"], L)
     v = beam_speed(b["energy"])
     nf = int(min(max(20 * math.ceil(L / h), 400), 40000))
-    zf = np.linspace(0.0, L, nf + 1)
-    a = stopping(case, zf, M=M) / v
-    a1 = np.gradient(a, zf, edge_order=2)
-    a2 = np.gradient(a1, zf, edge_order=2)
+    edges = [0.0] + [float(q) for q in kinks] + [L]
+    Zs, A, A1, A2 = [], [], [], []
+    jumps = []
+    prev_end = None
+    for i in range(len(edges) - 1):
+        lo, hi = edges[i], edges[i + 1]
+        dl = min(1e-9 * L, 0.01 * (hi - lo))
+        lo_ = lo + (dl if i > 0 else 0.0)
+        hi_ = hi - (dl if i < len(edges) - 2 else 0.0)
+        n = max(9, int(math.ceil(nf * (hi - lo) / L)) + 1)
+        zf = np.linspace(lo_, hi_, n)
+        a = stopping(case, zf, M=M) / v
+        a1 = np.gradient(a, zf, edge_order=2)
+        a2 = np.gradient(a1, zf, edge_order=2)
+        if i > 0:
+            jumps.append(abs(float(a[0]) - prev_end))
+        prev_end = float(a[-1])
+        Zs.append(zf), A.append(a), A1.append(a1), A2.append(a2)
+    Zf, a, a1, a2 = np.concatenate(Zs), np.concatenate(A), np.concatenate(A1), np.concatenate(A2)
     cm_a = np.maximum.accumulate(np.abs(a))
     cm_c = np.maximum.accumulate(np.abs(a * a - a1))
     cm_2 = np.maximum.accumulate(np.abs(a2))
-    zz = np.minimum(np.asarray(zs, dtype=float) + h, L)               # right node of the grid interval containing z
-    idx = np.minimum(np.searchsorted(zf, zz, side="left") + 1, nf)
+    a1max = float(np.abs(a1).max())
+    z_ = np.asarray(zs, dtype=float)
+    zz = np.minimum(z_ + h, L)                                        # right node of the grid interval containing z
+    idx = np.minimum(np.searchsorted(Zf, zz, side="left") + 1, len(Zf) - 1)
     amax, cmax, a2max = cm_a[idx], cm_c[idx], cm_2[idx]
-    return (np.expm1(zz * h * h / 12.0 * a2max) + h * h / 8.0 * cmax) * np.exp(h * amax)
+    e_s = zz * h * h / 12.0 * a2max
+    e_k = np.zeros(len(z_))
+    i_k = np.zeros(len(z_))
+    for xi, J in zip(kinks, jumps):
+        e_k += np.where(xi <= zz, 0.5 * h * J + h * h * a1max, 0.0)
+        i_k += np.where(np.abs(xi - z_) <= h, 0.25 * h * J, 0.0)
+    return (np.expm1(TOL_FACTOR * e_s + KINK_FACTOR * e_k) + TOL_FACTOR * h * h / 8.0 * cmax + KINK_FACTOR * i_k) * np.exp(h * amax) + 1e-7
 
 
 # ----------------------------------------------------------------------------------------------------------------
@@ -336,6 +494,50 @@ def _scalar_profile(rng, kind, v0, p0, d, L, h, positive_floor):
         base = 0.0 if (not positive_floor and rng.random() < 0.3) else float(v0 * rng.uniform(0.02, 1.0))
         return {"k": "gau", "b": float(base), "a": float(v0), "c": [float(x) for x in c], "w": float(w)}
     raise ValueError(kind)
+
+
+def _gap_geometry(rng, gkind, p0, d, L):
+    """Region shape (plasma space) whose trace on the beam axis has vacuum gaps BETWEEN plasma regions."""
+    e = _unit(rng)
+    e = e - (e @ d) * d
+    e = d + rng.uniform(0.0, 0.7) * e / np.linalg.norm(e)
+    e = e / np.linalg.norm(e)                       # oblique to the beam, d.e >= 0.8
+    c = float(d @ e)
+    if gkind == "slabs":
+        ns = int(rng.integers(2, 4))                # two or three slabs
+        fr = rng.uniform(0.08, 1.0, size=2 * ns + 1)
+        # alternate gap / slab / gap ... ; the first boundary may lie before the source (plasma at z = 0) or after it
+        lo = -0.25 * L if rng.random() < 0.45 else rng.uniform(0.02, 0.2) * L
+        hi = rng.uniform(0.85, 1.25) * L
+        if lo < 0:
+            fr[0] = 0.0
+        cuts = lo + (hi - lo) * np.cumsum(fr) / fr.sum()
+        cuts = np.concatenate([[lo], cuts])
+        iv = [[float(cuts[2 * j + 1] * c), float(cuts[2 * j + 2] * c)] for j in range(ns)]
+        return {"k": "slabs", "e": [float(x) for x in e], "r0": [float(x) for x in p0], "iv": iv}
+    if gkind == "shell":
+        ro = float(rng.uniform(0.25, 0.6) * L)
+        ri = float(rng.uniform(0.3, 0.8) * ro)
+        perp = _unit(rng)
+        perp = perp - (perp @ d) * d
+        perp = perp / np.linalg.norm(perp)
+        cen = p0 + rng.uniform(0.3, 0.7) * L * d + rng.uniform(0.0, 0.6) * ri * perp     # axis passes through the hollow
+        return {"k": "shell", "c": [float(x) for x in cen], "ri": ri, "ro": ro}
+    if gkind == "clip":
+        kk = float(2 * math.pi * rng.uniform(1.0, 3.0) / (L * c))
+        return {"k": "clip", "e": [float(x) for x in e], "r0": [float(x) for x in p0], "kk": kk,
+                "ph": float(rng.uniform(0, 2 * math.pi)), "off": float(rng.uniform(0.0, 0.6))}
+    raise ValueError(gkind)
+
+
+def _gap_profile(rng, geom, v0):
+    p = dict(geom)
+    p["v"] = float(v0)
+    if p["k"] == "slabs":
+        p["iv"] = [[a_, b_, float(rng.uniform(0.3, 1.5))] for a_, b_ in geom["iv"]]
+    elif p["k"] == "shell":
+        p["g"] = float(rng.uniform(-0.5, 0.5))
+    return p
 
 
 def gen_case(rng, tier, overrides=None):
@@ -395,7 +597,7 @@ def gen_case(rng, tier, overrides=None):
     d = M[:3, 2] / np.linalg.norm(M[:3, 2])
     h = min(step, length)
     # ---- plasma ----
-    stop = ov.get("stop_class") or ["none", "uniform", "uniform", "linear", "exp", "gauss", "gauss", "mixed", "mixed", "mixed"][int(rng.integers(10))]
+    stop = ov.get("stop_class") or ["none", "uniform", "uniform", "linear", "exp", "gauss", "gauss", "mixed", "mixed", "mixed", "gapped", "gapped", "gapped"][int(rng.integers(13))]
     sub = ""
     nion = int(rng.integers(1, 5))
     if stop == "none":
@@ -404,6 +606,20 @@ def gen_case(rng, tier, overrides=None):
             nion = 0
         elif sub == "neutrals-only":
             nion = 0
+    geom = None
+    gap_common, gap_ion = True, 0
+    if stop == "gapped":
+        # piecewise density: exactly zero on parts of the axis between non-zero regions.  Mostly a fine attenuator grid,
+        # so that the first-order kink allowance (|jump| x step) stays well below the attenuation behind a gap.
+        if "attenuator" not in ov and rng.random() < 0.8:
+            att["step"] = step = float(length / rng.uniform(200, max_nodes))
+            h = min(step, length)
+            case["step_class"] = "step<=length"
+        gk = ov.get("gap_kind") or ["slabs", "slabs", "shell", "clip"][int(rng.integers(4))]
+        geom = _gap_geometry(rng, gk, p0, d, length)
+        gap_common = bool(nion == 1 or rng.random() < 0.65)      # all ions share the region shape / one species only
+        gap_ion = int(rng.integers(nion))
+        sub = gk + (":common" if gap_common else ":one-species")
     species = []
     used = set()
     names = list(PLASMA_ELEMENTS)
@@ -422,16 +638,18 @@ def gen_case(rng, tier, overrides=None):
         n0 = float(10 ** rng.uniform(17, 20.5)) / (1 if i == 0 else Z * rng.uniform(1, 30))
         T0 = float(10 ** rng.uniform(0, 4.3))
         kinds = {"none": ["u", "lin", "exp", "gau"], "uniform": ["u"], "linear": ["lin"], "exp": ["exp"], "gauss": ["gau"],
-                 "mixed": ["u", "lin", "exp", "gau"]}[stop]
+                 "mixed": ["u", "lin", "exp", "gau"], "gapped": ["u", "lin", "exp", "gau"]}[stop]
         kn = kinds[int(rng.integers(len(kinds)))]
         kT = kinds[int(rng.integers(len(kinds)))]
         npro = _scalar_profile(rng, kn, n0, p0, d, length, h, positive_floor=False)
         if sub == "zero-density":
             npro = {"k": "u", "v": 0.0}
+        if geom is not None and (gap_common or i == gap_ion):
+            npro = _gap_profile(rng, geom, n0)
         Tpro = _scalar_profile(rng, kT, T0, p0, d, length, h, positive_floor=True)
         if flows and rng.random() < 0.8:
             u0 = _unit(rng) * rng.uniform(0.0, 0.4) * v
-            if stop in ("gauss", "mixed", "none") and rng.random() < 0.5:
+            if stop in ("gauss", "mixed", "none", "gapped") and rng.random() < 0.5:
                 w = max(25.0 * h, float(rng.uniform(0.05, 2.0)) * length)
                 c = p0 + rng.uniform(-0.2, 1.2) * length * d
                 upro = {"k": "gau", "v": [float(x) for x in u0], "a": float(rng.uniform(-0.8, 2.0)), "c": [float(x) for x in c], "w": float(w)}
@@ -471,7 +689,8 @@ def gen_case(rng, tier, overrides=None):
     if rng.random() < 0.03:
         tau_target = float(rng.uniform(20, 60))
     if stop != "none":
-        tau1 = optical_depth(case, [case["beam"]["length"]], panel=case["beam"]["length"] / 64, order=8, M=M, scale=1.0)[0]
+        tau1 = optical_depth(case, [case["beam"]["length"]], panel=case["beam"]["length"] / 64, order=8, M=M, scale=1.0,
+                             kinks=axis_kinks(case, M))[0]
         if tau1 > 0 and np.isfinite(tau1):
             case["rate_scale"] = float(tau_target / tau1)
         else:
@@ -523,6 +742,11 @@ def fixed_cases(tier):
     out.append(mk(7, stop_class="uniform", place="rotated", div_class="equal",
                   beam=dict(energy=1e6, power=1e7, element="helium", sigma=0.3, divergence_x=0.001, divergence_y=0.001, length=5.0, temperature=0.0),
                   attenuator=dict(step=0.2, clamp_to_zero=False, clamp_sigma=6.0)))
+    # piecewise profiles with vacuum gaps between plasma regions (slabs, hollow shell crossed twice, clipped lobes)
+    out.append(mk(8, stop_class="gapped", gap_kind="slabs", place="moved"))
+    out.append(mk(9, stop_class="gapped", gap_kind="shell", place="nested"))
+    out.append(mk(10, stop_class="gapped", gap_kind="clip", place="identity"))
+    out.append(mk(11, stop_class="gapped", gap_kind="slabs", place="rotated", div_class="zero"))
     return out
 
 
@@ -579,7 +803,7 @@ def build_scene(case, log, counter):
 # ----------------------------------------------------------------------------------------------------------------
 
 def _flags(case):
-    f = [case["stop_class"] if case["stop_class"] in ("uniform", "none") else "varying"]
+    f = [{"uniform": "uniform", "none": "none", "gapped": "gapped-profile"}.get(case["stop_class"], "varying")]
     ions = [s for s in case["species"] if s["Z"] > 0]
     if any(s["Z"] >= 2 for s in ions):
         f.append("highZ")
@@ -626,13 +850,14 @@ def run_case(case, ctx):
     else:
         h = min(a["step"], L)
         panel = min(h, L / 64.0)
-        tau = optical_depth(case, zs, panel, 8, M=M)
-        tau_hi = optical_depth(case, zs, panel, 12, M=M)
+        kinks = axis_kinks(case, M)
+        tau = optical_depth(case, zs, panel, 8, M=M, kinks=kinks)
+        tau_hi = optical_depth(case, zs, panel, 12, M=M, kinks=kinks)
         if not np.all(np.isfinite(tau)) or np.max(np.abs(tau - tau_hi)) > 1e-10 * max(1.0, tau[-1]):
             ctx.skip("oracle stopping integral not converged")
             return
-        bound = discretisation_bound(case, zs, M)
-        tol_rel = TOL_FACTOR * bound + 1e-7
+        tol_rel = flux_tolerance(case, zs, M, kinks)
+        ctx.mon("axis_kinks", len(kinks))
     lam = lam0 * np.exp(-tau)
 
     # ---------------- cross-section moments of the real density ----------------
@@ -730,7 +955,8 @@ def run_case(case, ctx):
             want = np.exp(-tau)
             got = m0 / m0[0]
             tight = (tol_rel <= -0.1 * np.expm1(-tau)) & (tau > 0)
-            for msk, mon in ((tight, "flux_atten"), (~tight, "flux_atten_loose")):
+            gp = "_gapped" if stopc == "gapped" else ""
+            for msk, mon in ((tight, "flux_atten" + gp), (~tight, "flux_atten" + gp + "_loose")):
                 if msk.any():
                     ctx.close(got[msk], want[msk], "flux:attenuation-factor:" + flags,
                               "flux(z)/flux(0) differs from exp(-int_0^z S/v) (documented composite S) beyond the discretisation bound",
@@ -831,6 +1057,24 @@ def worker_init(ctx):
         got = np.array([f(*q) for q in pts])
         if not np.allclose(got, vec_scalar(p, pts), rtol=1e-13, atol=0):
             raise RuntimeError("harness: scalar/vector profile mismatch for %s" % kind)
+    for gk in GAP_KINDS:
+        p = _gap_profile(rng, _gap_geometry(rng, gk, p0, d, 1.7), 2e19)
+        f = scalar_fn(p, cnt)
+        q = p0[None, :] + np.linspace(0, 1.7, 400)[:, None] * d[None, :] + 0.01 * rng.normal(size=(400, 3))
+        got = np.array([f(*r_) for r_ in q])
+        want = vec_scalar(p, q)
+        if not np.allclose(got, want, rtol=1e-12, atol=0) or not (want == 0).any() or not (want > 0).any():
+            raise RuntimeError("harness: scalar/vector piecewise profile mismatch for %s" % gk)
+        # every kink reported by profile_kinks separates two smooth pieces: the profile must be smooth in between
+        kz = sorted(profile_kinks(p, p0, d, 1.7))
+        ed = [0.0] + kz + [1.7]
+        for lo_, hi_ in zip(ed[:-1], ed[1:]):
+            if hi_ - lo_ < 1e-6:
+                continue
+            zz = np.linspace(lo_ + 1e-9, hi_ - 1e-9, 50)
+            val = vec_scalar(p, p0[None, :] + zz[:, None] * d[None, :])
+            if (val == 0).any() and (val > 0).any():
+                raise RuntimeError("harness: missed kink of %s between %r and %r" % (gk, lo_, hi_))
     p = {"k": "gau", "v": [1e4, -2e4, 3e3], "a": 0.7, "c": [0.1, 0.2, 0.3], "w": 0.9}
     f = vector_fn(p, cnt, V)
     got = np.array([[f(*q).x, f(*q).y, f(*q).z] for q in pts])
